@@ -331,7 +331,23 @@ def run(ctx):
                 if p != b"\x00" * 32 and p in pos and pos[p] > pos[b.hash()]:
                     problems.append("a child is read back before its parent")
                     break
-            cs2, skipped = rebuild(got)
+            # the node's own start-up routine on the reopened store (scripts/utils.read_chain_from_disk prints one line per
+            # block it has to skip)
+            import contextlib
+            import io as _io
+            import skepticoin.scripts.utils as _su
+            saved_instance = getattr(blockstore.DefaultBlockStore, "instance", None)
+            blockstore.DefaultBlockStore.instance = store
+            out_ = _io.StringIO()
+            try:
+                with contextlib.redirect_stdout(out_):
+                    cs2 = _su.read_chain_from_disk()
+                skipped = out_.getvalue().count("Skipping block_hash")
+            except Exception as e:
+                problems.append("the node's start-up routine raised on the reopened store: %r" % e)
+                cs2, skipped = rebuild(got)
+            finally:
+                blockstore.DefaultBlockStore.instance = saved_instance
             orig, _ = rebuild(written)
             if skipped:
                 problems.append("rebuilding the chain state skips %d block(s)" % skipped)
